@@ -123,6 +123,15 @@ func resolve(style, wantKind, wantName string, wantNamed, wantFail bool) *ev.Vio
 	if out != out2 || (err != nil) != (err2 != nil) {
 		return ev.V("auto.New(%q).Render() and auto.Render(t,%q) disagree: %q/%v vs %q/%v", style, style, out, err, out2, err2)
 	}
+	// re-styling an existing table (itself made by auto with another style) resolves the same way
+	for _, other := range []string{"ascii-simple", "csv", "none"} {
+		base := auto.New(other)
+		fill(base)
+		o3, e3 := auto.Wrap(base, style).Render()
+		if o3 != out || (e3 != nil) != (err != nil) {
+			return ev.V("auto.Wrap(auto.New(%q), %q) renders differently from auto.New(%q): err %v vs %v\n--- re-styled\n%s\n--- direct\n%s", other, style, style, e3, err, o3, out)
+		}
+	}
 	if wantFail {
 		if err == nil || out != "" {
 			return ev.V("style %q names nothing known, yet rendering gave err=%v output=%q", style, err, out)
@@ -152,9 +161,12 @@ func CheckCase(c Case) *ev.Violation {
 	seq := atomic.AddInt64(&caseSeq, 1)
 	actual := make([]string, len(c.Names))
 	for i, b := range c.Names {
-		actual[i] = fmt.Sprintf("%s%d", b, seq)
+		// fixed-width suffix: two names can only be equal if they come from the same case
+		// (a plain "%s%d" let base "A" of case 327 collide with base "A3" of case 27)
+		actual[i] = fmt.Sprintf("%s-%08d", b, seq)
 	}
 	registered := map[string]bool{}
+	pkgNamed := map[string]bool{}
 	checkListing := func(step int) *ev.Violation {
 		for rep := 0; rep < 2; rep++ {
 			l := auto.ListStyles()
@@ -205,6 +217,14 @@ func CheckCase(c Case) *ev.Violation {
 	for i, op := range c.Ops {
 		step := i + 1
 		switch op.K {
+		case "registerpkg":
+			// an application may register a decoration under any name, also one that happens to be a sub-package
+			// name: the sub-package name keeps selecting that renderer, 'texttable.<name>' selects the decoration
+			n := append(append([]string{}, pkgs...), "texttable", "CSV", "Json")[op.Which%7]
+			d, _ := op.Deco.Make()
+			decoration.RegisterDecorationName(n, d)
+			registered[n] = true
+			pkgNamed[n] = true
 		case "register":
 			if len(actual) == 0 {
 				continue
